@@ -148,6 +148,19 @@ def build_records(quick, rng, only_sid):
       except Exception as e:  # pylint: disable=broad-except
         rec['raised'] = type(e).__name__
       recs.append(rec)
+  # the closed form at the block sizes the suite uses (512 .. 4096) and beyond: every m for a few n, the median band for a sweep of n
+  big = [512, 1024, 2048, 2955, 2956, 2957, 4095, 4096, 4097, 8192, 65536]
+  sweep = list(range(100, 6000, 97 if ctx.quick else 7))
+  for n in big + sweep:
+    ms = range(0, n + 1) if (n in big and n <= 4097 and (not ctx.quick or n in (2956, 4096))) else sorted(
+        set([0, 1, 2, n // 4, n // 2 - 2, n // 2 - 1, n // 2, n // 2 + 1, n // 2 + 2, (n + 1) // 2, 3 * n // 4, n - 1, n]))
+    for m in ms:
+      rec = {'sid': 'logprob-%d-%d' % (n, m), 'ev': 'logprob', 'args': {'n': n, 'm': m}, 'obs': {}, 'raised': 'none'}
+      try:
+        rec['obs'] = {'value': int(bm.LfsrLogProbability(n, m))}
+      except Exception as e:  # pylint: disable=broad-except
+        rec['raised'] = type(e).__name__
+      recs.append(rec)
   return recs, exh
 
 
